@@ -691,7 +691,7 @@ trace of external calls — at every call level, number system and oracle. Outsi
 although a shadowed occurrence remains (FindUsage is scope aware, the link is not), initialisers that are
 "pure" for the evaluator but not total (`local x = -nil`: the original RAISES, the output does not — not a
 C01 violation, C01 only speaks about error-free originals), effectful values kept as statements, regrouping,
-unused local functions (closure allocation), F25. -/
+unused local functions (closure allocation). (F25 is fixed.) -/
 theorem rule_refines_remove_unused_variable_partial (api : EvalApi) (b : Block)
     (h : Rules.UnusedVariable.Guarded.applyG api b = Rules.UnusedVariable.apply api b)
     {N : NumOps} (ρ : ExtOracle N) (n : Nat) (externs : List String) :
